@@ -16,6 +16,7 @@ import (
 
 func main() {
 	r := vlib.Start("C14", "exploration")
+	r.ScaleQuick(3) // quick tier: 3x the case counts written at the sections (still well under a minute)
 	r.Rule("polygons are drawn on integer grids (half-extent 3 .. 2^20) from ten families (convex, star, spiral, comb, staircase band, zigzag band, histogram, 2-opt random, rectangle, triangle), optionally with extra lattice points on edges (exactly colinear runs), under a random lattice symmetry, cyclic shift and orientation; regions add holes, islands in holes (depth <= 4), several roots, and rectilinear outlines traced from random bitmaps; every input is certified simple by an exact O(E log E + pairs) edge test before the library sees it; placements are exact (power-of-two scale, integer offsets: the verdict on the integers is the verdict on the floats) or rigid (random angle/scale/translation: verdict on the integer pre-image through the bit-equal vertex correspondence); a case is non-trivial if it has a reflex vertex, a colinear vertex or a hole; distinct by hash of API, pre-image and placement")
 	r.Assume("exact placements: float64(p)*2^k + m*2^k is exact for the generated ranges (self-checked per vertex)")
 	r.Assume("rigid placements: the rounded image of an integer polygon with extent <= 200 is a simple polygon with the same combinatorial structure, so a correct triangulation of the image is, through the vertex correspondence, a cover of the pre-image up to zero-area triangles; zero-area triangles are counted, never alarmed on")
